@@ -2,7 +2,8 @@
    Include/Template.hpp (getOperation, isExpression, parseValue,
    parseExpressions, evaluate, GetExpressionValue, evaluateExpression, isEqual)
    and of the typed arithmetic of Include/QExpression.hpp, AFTER the repairs
-   findings/D1_precedence_after_recursion.patch and findings/D14_remainder_by_zero.patch.
+   findings/D1_precedence_after_recursion.patch (/repo d87efe1), findings/D14_remainder_by_zero.patch
+   (/repo 8e23fd8) and the lead's D47 (/repo 3d5d94b: x % -1 = 0 without dividing).
    Definitions only (no proofs).  The second half is the SPECIFICATION:
    expression trees, textbook precedence climbing ([std_tree]) and two
    evaluators of trees: [tree_eval] (same typed arithmetic, used by the
@@ -25,10 +26,11 @@ Inductive err :=
 | EFuel                    (* the model ran out of fuel (never on well-formed input: see proofs) *)
 | EShape                   (* item list not of the shape the parser produces *)
 | EUB (site : N)           (* undefined behaviour in the C++: 1 = double->int64 out of range *)
-| ETrap (site : N)         (* hardware trap: 1 = INT64_MIN % -1 *)
+| ETrap (site : N)         (* hardware trap; no function of the model produces it any more (c04_no_trap) *)
 | EOOB (site : N)          (* read outside the content buffer *)
 | EUnsupported (site : N). (* outside the modelled domain: 1 = text operand of a non-equality operator,
-                              2 = numeral form not covered by [numeral], 3 = variable with [index] *)
+                              2 = numeral form not covered by [numeral], 3 = variable with [index],
+                              4 = operator value outside QOperation's binary operators *)
 
 Inductive outcome (A : Type) :=
 | Ok (a : A)
@@ -186,7 +188,7 @@ Definition q_pow (l r : qval) : outcome qval :=
            let pw := powerof base p in
            if rneg then
              let x := fdiv fone (d_of_nat pw) in
-             Ok (QReal (if lneg then fneg x else x))
+             Ok (QReal (if lneg then fneg x else x))   (* KF-C04-negpow: also for an even exponent (pinned by EvaluateTest) *)
            else if lneg && N.odd e then Ok (QInt (neg64 pw))
            else Ok (QNat pw)
          end)).
@@ -213,11 +215,9 @@ Definition q_div (l r : qval) : outcome qval :=
     if nz then bind (to_real l) (fun x => bind (to_real r) (fun y => Ok (QReal (fdiv x y))))
     else NoValue).
 
-(* case Remainder of evaluateExpression AFTER findings/D14: a real divisor is
-   truncated first, a zero divisor yields no value; then QExpression::operator% *)
-Definition rem64 (a b : N) : outcome N :=
-  if (signed a =? - Z.of_N two63)%Z && (signed b =? -1)%Z then Err (ETrap 1)
-  else Ok (wrapZ (Z.rem (signed a) (signed b))).
+(* case Remainder of evaluateExpression (fix 8e23fd8 = findings/D14: a real divisor is
+   truncated first, a zero divisor yields no value) and QExpression::operator% (fix
+   3d5d94b: divisor -1 answers 0 without dividing, so INT64_MIN % -1 cannot trap) *)
 Definition q_rem (l r : qval) : outcome qval :=
   bind (match r with
         | QNat b | QInt b => Ok b
@@ -225,11 +225,16 @@ Definition q_rem (l r : qval) : outcome qval :=
         | _ => Err (EUnsupported 1)
         end) (fun d =>
     if d =? 0 then NoValue
+    else if (signed d =? -1)%Z then
+      match l with
+      | QNat _ | QInt _ | QReal _ => Ok (QInt 0)      (* returned before the left operand is looked at *)
+      | _ => Err (EUnsupported 1)
+      end
     else bind (match l with
                | QNat a | QInt a => Ok a
                | QReal x => to_i64 x
                | _ => Err (EUnsupported 1)
-               end) (fun a => bind (rem64 a d) (fun x => Ok (QInt x)))).
+               end) (fun a => Ok (QInt (wrapZ (Z.rem (signed a) (signed d)))))).
 
 (* QExpression::operator&= and operator|= share their shape *)
 Definition q_bit (f : N -> N -> N) (l r : qval) : outcome qval :=
@@ -321,7 +326,7 @@ Definition numeral (s : list N) : numres :=
           if (c2 =? dg_Dot) && Nat.eqb nf 0 then NumUnsupported
           else if Nat.ltb 18 (ni + nf) then NumUnsupported
           else match r3 with
-          | [] => if m =? 0 then NumUnsupported else NumReal (real_of_dec neg m (- Z.of_nat nf))
+          | [] => NumReal (real_of_dec neg m (- Z.of_nat nf))
           | c3 :: r4 =>
             if (c3 =? dg_E) || (c3 =? dg_UE) then
               let '(eneg, r5) := match r4 with
@@ -448,7 +453,7 @@ Definition apply_op (e : env) (op : N) (l r : qval) : outcome qval :=
   else if op =? op_Equal then is_equal e l r
   else if op =? op_NotEqual then
     bind (is_equal e l r) (fun v => match v with QNat b => Ok (QNat (N.lxor b 1)) | _ => Ok v end)
-  else Ok l.   (* "It will not reach this." *)
+  else Err (EUnsupported 4).   (* default: "It will not reach this." -- no such operator in a parsed list *)
 
 (* ------------------------------------------------------------------ *)
 (* the flat expression list: each item carries the operator that FOLLOWS it *)
